@@ -38,18 +38,7 @@ Open Scope R_scope.
 
 (** * 0. Basics *)
 
-Global Instance prec53_gt_0 : Prec_gt_0 53 := eq_refl.
-Lemma fexp64_valid : Valid_exp fexp64.
-Proof. unfold fexp64. apply FLT_exp_valid. exact prec53_gt_0. Qed.
-
-Lemma RN_le x y : x <= y -> RN x <= RN y.
-Proof. intros H. unfold RN. apply round_le; [exact fexp64_valid | apply valid_rnd_N | exact H]. Qed.
-
-Lemma RN_0 : RN 0 = 0.
-Proof. unfold RN. apply round_0. apply valid_rnd_N. Qed.
-
-Lemma RN_opp x : RN (- x) = - RN x.
-Proof. unfold RN. apply round_NE_opp. Qed.
+(* prec53_gt_0, fexp64_valid, RN_le, RN_0, RN_opp, RN_idem: Base/FloatGrid.v *)
 
 Lemma fmt_m1022 : generic_format radix2 fexp64 (bpow radix2 (-1022)).
 Proof. apply generic_format_bpow. unfold fexp64, FLT_exp. lia. Qed.
